@@ -1145,8 +1145,27 @@ def pcap_session_history(rng, n_rec=None, maxlen=40, wild=0.15):
     ops += ["call close", "obs", "call open qr", "obs", "call readall", "call next"]
     for i in (0, n - 1, n, rng.randrange(-2, n + 2)):
         ops.append("call getitem %d" % i)
+    # negative indices (review B8): None, never "from the end"; the scan leaves the cursor at the end of the file
+    ops += ["call getitem -1", "call next", "call getitem %d" % -max(n, 1), "call getitem 0"]
     ops += ["call next", "call close", "call next", "obs"]
     return ops
+
+NEG_INDEXES = [-1, -2, -3, -(1 << 31), -(1 << 32) - 1, -(1 << 63), -(1 << 64) - 5]
+
+def pcap_negative_history(rng):
+    """index access with negative / far out-of-range indices on a reader, on a writer and on a closed object"""
+    n = rng.randrange(0, 5)
+    ops = ["call open qw"] + ["call write " + rec_text(rng, 12, 0.0) for _ in range(n)] + ["call close", "call open qr"]
+    for k in [-n, -n - 1] + [rng.choice(NEG_INDEXES) for _ in range(2)]:
+        ops += ["call getitem %d" % k, "call next"]                 # None, then StopIteration: cursor at the end
+        if n:
+            ops.append("call getitem %d" % rng.randrange(0, n))      # index access rewinds: still every record
+    ops += ["call getitem %d" % (n + rng.choice([0, 1, 1 << 31, 1 << 64])), "call next", "call readall", "call close",
+            "call getitem -1"]                                       # closed object: ValueError
+    if rng.random() < 0.5:                                           # a writer: the scan ends at once, None
+        ops += ["call open qa", "call getitem -1", "call write " + rec_text(rng, 12, 0.0), "call getitem -2", "call close",
+                "call open qr", "call readall", "call getitem -1"]
+    return ops + ["obs"]
 
 SOUP = ["call open qw", "call open qa", "call open qr", "call close", "call flush", "call next", "call readall",
         "call getitem 0", "call getitem 1", "call getitem -1", "obs", "call delete"]
@@ -1236,6 +1255,8 @@ def corr_C05(ctx):
         lines.append(gen.H("PcapFile", pcap_soup_history(rng, rng.randrange(1, 14))))
     for _ in range(ctx.scale(40, 600)):
         lines.append(gen.H("PcapFile", pcap_zero_session_history(rng)))
+    for _ in range(ctx.scale(120, 1500)):
+        lines.append(gen.H("PcapFile", pcap_negative_history(rng)))
     for _ in range(ctx.scale(4, 12)):
         lines += pcap_truncation_lines(ctx, rng, ctx.scale(300, 400))
     for shape in EMPTY_SHAPES:                         # empty payloads: last record, and directly before the cut
@@ -1249,6 +1270,42 @@ def corr_C05(ctx):
 
 def _tmp():
     return tempfile.mkdtemp(prefix="acra-verif-oracle-")
+
+def check_pcap_mixed_access(args):
+    """by iteration or by index, in any interleaving on ONE open reader: `p[i]` is record i (None past the end),
+    whatever was read before it"""
+    import AcraNetwork.Pcap as pcap
+    recs = [(s, u, bytes.fromhex(p)) for s, u, p in args["records"]]
+    d = _tmp()
+    try:
+        fn = os.path.join(d, "m.pcap")
+        f = pcap.Pcap(fn, mode="w")
+        for s, u, p in recs:
+            r = pcap.PcapRecord()
+            r.sec, r.usec, r.payload = s, u, p
+            f.write(r)
+        f.close()
+        want = [(s, u, len(p), len(p), p) for s, u, p in recs]
+        g = pcap.Pcap(fn)
+        done = []
+        for op in args["ops"]:
+            done.append(op)
+            if op == "next":
+                try:
+                    next(g)
+                except StopIteration:
+                    pass
+            else:
+                r = g[op]
+                exp = want[op] if 0 <= op < len(want) else None
+                got = None if r is None else (r.sec, r.usec, r.incl_len, r.orig_len, r.payload)
+                if got != exp:
+                    return "Pcap[%d] of a %d-record file after the accesses %r returns %s, not record %d" % (
+                        op, len(want), done[:-1], "None" if got is None else "another record (sec=%d)" % got[0], op)
+        g.close()
+    finally:
+        shutil.rmtree(d, True)
+    return None
 
 def check_pcap_sessions(args):
     """records written in sessions (w, a, a, …) give the standard header followed by the records; reading back by
@@ -1294,14 +1351,15 @@ def check_pcap_sessions(args):
         shutil.rmtree(d, True)
     return None
 
-def check_pcap_mixed_access(args):
-    """by iteration or by index, in any interleaving on ONE open reader: `p[i]` is record i (None past the end),
-    whatever was read before it"""
+def check_pcap_negative_index(args):
+    """C05.getitem_negative / getitem_negative_exhausts / getitem_beyond on the real code: pcap[k] for k < 0 and for
+       k >= len is None (negative indices do NOT count from the end), the scan leaves the iterator exhausted, index
+       access afterwards still returns every record; on a closed object it raises ValueError"""
     import AcraNetwork.Pcap as pcap
     recs = [(s, u, bytes.fromhex(p)) for s, u, p in args["records"]]
     d = _tmp()
     try:
-        fn = os.path.join(d, "m.pcap")
+        fn = os.path.join(d, "t.pcap")
         f = pcap.Pcap(fn, mode="w")
         for s, u, p in recs:
             r = pcap.PcapRecord()
@@ -1309,23 +1367,30 @@ def check_pcap_mixed_access(args):
             f.write(r)
         f.close()
         want = [(s, u, len(p), len(p), p) for s, u, p in recs]
-        g = pcap.Pcap(fn)
-        done = []
-        for op in args["ops"]:
-            done.append(op)
-            if op == "next":
-                try:
-                    next(g)
-                except StopIteration:
-                    pass
-            else:
-                r = g[op]
-                exp = want[op] if 0 <= op < len(want) else None
-                got = None if r is None else (r.sec, r.usec, r.incl_len, r.orig_len, r.payload)
-                if got != exp:
-                    return "Pcap[%d] of a %d-record file after the accesses %r returns %s, not record %d" % (
-                        op, len(want), done[:-1], "None" if got is None else "another record (sec=%d)" % got[0], op)
-        g.close()
+        f = pcap.Pcap(fn)
+        for k in args["indexes"]:
+            st = guarded(lambda: f[k])
+            inside = 0 <= k < len(recs)
+            if st[0] != "ok":
+                return "Pcap[%d] of a %d-record file: %s" % (k, len(recs), st)
+            if inside:
+                r = st[1]
+                if r is None or (r.sec, r.usec, r.incl_len, r.orig_len, r.payload) != want[k]:
+                    return "Pcap[%d] differs from the record written" % k
+                continue
+            if st[1] is not None:
+                return "Pcap[%d] of a %d-record file is not None" % (k, len(recs))
+            st = guarded(lambda: next(f))
+            if st[0] != "err" or st[1] != "stopiteration":
+                return "after Pcap[%d] (None) the iterator is not exhausted: next() gave %r" % (k, st)
+            for i in range(len(recs)):
+                r = f[i]
+                if r is None or (r.sec, r.usec, r.incl_len, r.orig_len, r.payload) != want[i]:
+                    return "Pcap[%d] after Pcap[%d] differs from the record written" % (i, k)
+        f.close()
+        st = guarded(lambda: f[-1])
+        if st[0] != "err" or st[1] != "value":
+            return "Pcap[-1] on a closed object: %r, expected ValueError" % (st,)
     finally:
         shutil.rmtree(d, True)
     return None
@@ -1391,23 +1456,6 @@ def oracles_C05(ctx, hints):
         if w:
             fails.append(Failure("pcap_sessions", args, w, {"class": "Pcap", "check": "write_read"}))
             break
-    for j in range(ctx.scale(40, 600) * k):            # first session writes nothing; empty payloads, also last
-        cnt = rng.randrange(0, 5)
-        recs = [[rng.boundary(32), rng.boundary(32), rng.bytes_(rng.choice([0, 0, 1, 5])).hex()] for _ in range(cnt)]
-        if cnt and j % 2:
-            recs[-1][2] = ""
-        splits = [0] + [0] * rng.randrange(0, 2)
-        left = cnt
-        while left:
-            c = rng.randrange(0, left + 1)
-            splits.append(c)
-            left -= c
-        args = {"records": recs, "splits": splits}
-        n += 1
-        w = check_pcap_sessions(args)
-        if w:
-            fails.append(Failure("pcap_sessions", args, w, {"class": "Pcap", "check": "write_read", "directed": "zero_session"}))
-            break
     # any 32-bit sec/usec: every wide literal of the library's own source (magic numbers, sync words, their
     # byte-swapped forms and neighbours) as a time stamp of a record in the middle of a file
     wide = [v for v in rng.dictionary(32) if v >= 0x10000]
@@ -1433,6 +1481,34 @@ def oracles_C05(ctx, hints):
         w = check_pcap_mixed_access(args)
         if w:
             fails.append(Failure("pcap_mixed_access", args, w, {"class": "Pcap", "check": "write_read", "directed": "mixed_access"}))
+            break
+    for j in range(ctx.scale(40, 600) * k):            # first session writes nothing; empty payloads, also last
+        cnt = rng.randrange(0, 5)
+        recs = [[rng.boundary(32), rng.boundary(32), rng.bytes_(rng.choice([0, 0, 1, 5])).hex()] for _ in range(cnt)]
+        if cnt and j % 2:
+            recs[-1][2] = ""
+        splits = [0] + [0] * rng.randrange(0, 2)
+        left = cnt
+        while left:
+            c = rng.randrange(0, left + 1)
+            splits.append(c)
+            left -= c
+        args = {"records": recs, "splits": splits}
+        n += 1
+        w = check_pcap_sessions(args)
+        if w:
+            fails.append(Failure("pcap_sessions", args, w, {"class": "Pcap", "check": "write_read", "directed": "zero_session"}))
+            break
+    for j in range(ctx.scale(60, 600) * k):            # negative and far out-of-range indices (review B8)
+        cnt = j % 5
+        recs = [[rng.boundary(32), rng.boundary(32), rng.bytes_(rng.choice([0, 1, 5, 16])).hex()] for _ in range(cnt)]
+        idx = [-1, -cnt, -cnt - 1, cnt, cnt + 1, rng.choice(NEG_INDEXES), rng.randrange(-3, cnt + 3), 1 << 64]
+        rng.shuffle(idx)
+        args = {"records": recs, "indexes": idx}
+        n += 1
+        w = check_pcap_negative_index(args)
+        if w:
+            fails.append(Failure("pcap_negative_index", args, w, {"class": "Pcap", "check": "getitem_negative"}))
             break
     shapes = list(EMPTY_SHAPES)
     for j in range(ctx.scale(6, 60) * k + len(shapes)):
@@ -1732,7 +1808,8 @@ ORACLES = {
     "udp_layout": check_udp_layout, "arp_layout": check_arp_layout, "rec_layout": check_rec_layout, "stack": check_stack,
     "ipv4_checksum": check_ipv4_checksum, "icmp_checksum": check_icmp_checksum, "igmp_join": check_igmp_join,
     "igmp_query": check_igmp_query, "eth_fcs": check_eth_fcs, "wire_verifies": check_wire_verifies, "stack_file": check_stack_file,
-    "pcap_sessions": check_pcap_sessions, "pcap_truncation": check_pcap_truncation, "pcap_iter_total": check_pcap_iter_total,
+    "pcap_sessions": check_pcap_sessions, "pcap_truncation": check_pcap_truncation,
+    "pcap_negative_index": check_pcap_negative_index, "pcap_iter_total": check_pcap_iter_total,
     "reassembly": check_reassembly, "reassembly_refuses": check_reassembly_refuses,
     "short_exact": check_short_exact,
 }
